@@ -15,6 +15,8 @@ def run(tier: str, seed: int):
         rule = 'all DAG shapes n<=4 x type assignment {None,1,2}; n<=3 with faults/deaths and empty polls; pre-cached subsets; every completion order; oracle at every rest point'
         e3c = (list(F.fam_e3(F.fam_limits(1, 3, tnames=('TA', 'TB'), faults=True), workers=(1, 2, None)))
                + list(F.fam_e3(F.fam_limits_special(3, tnames=('TK', 'TC1', 'TC2')), workers=(3,), cpu_count=3, backends=('fork',), liveness=False))
+               # partially warm caches on the process runners (cached tasks next to runnable uncached ones)
+               + list(F.fam_e3(F.fam_shapes(2, 3), workers=(2,), liveness=False))
                # a worker process that never exits after sending its result (a left-over non-daemon thread)
                + list(F.fam_e3(F.fam_limits(2, 3, tnames=('TA',)), workers=(1, 2), backends=('fork',), liveness=False, linger=True)))
     else:
